@@ -119,7 +119,7 @@ def to_coq(c):
     if o.get("crash") or o.get("outhex"):
         return None
     op = c["op"]
-    if op in ("file", "gort", "runes", "reuse", "targets", "lexfn", "hold", "bigrt", "deep", "reread"):
+    if op in ("file", "gort", "runes", "reuse", "targets", "lexfn", "hold", "bigrt", "deep", "reread", "bigfile"):
         return "CUtf8 [] []"      # compared by the oracle only
     if op in ("rstream", "rseries") and c.get("rmode") in (6, 7):
         return "CUtf8 [] []"      # a failing reader: oracle only (usage_oracle)
@@ -517,6 +517,10 @@ def usage_oracle(c):
     if op == "deep":
         if o.get("note"):
             return "deep-nesting", o["note"]
+        return None
+    if op == "bigfile":
+        if o.get("note"):
+            return "file-truncated", o["note"]
         return None
     if op == "reread":
         if o.get("note"):
